@@ -19,7 +19,7 @@ from vf.props.common import harness_error, inconclusive, proved, violation
 ID = "C03"
 LEVEL = "model_checking"
 ITEM_BUDGET_S = {"quick": 300, "thorough": 1200}
-QT = {"quick": 15000, "thorough": 20000}
+QT = {"quick": 15000, "thorough": 8000}
 _TIER = "quick"
 PATHS_SEEN = set()
 
@@ -27,7 +27,7 @@ META = dict(
     rule="one case = (expression list, variable order V, observation, entry (i,j), path); non-trivial = list with >=1 decided query",
     bounds={
         "quick": "m<=3 expressions; singles from the depth<=2 family restricted to vector/matrix nodes, affine wrappers and a scalar sample; n=3 vectors (and n=1,2 for the vectorised sums); |V|<=7; every permutation when <=3 variables, rotations otherwise, supersets with one unused variable",
-        "thorough": "700 recipes of the depth<=3 family as singles, n up to 4, two unused variables, 90 VERIF_SEED random lists",
+        "thorough": "500 recipes of the depth<=3 family as singles, n up to 4, two unused variables, 90 VERIF_SEED random lists",
     },
     outside=["rounding (S7)", "non-regular points (C19 covers sanitisation)", "m>3, n>5"],
     assumptions=["S1", "S2", "S3 (isfinite == True on reals)", "S6", "S7"],
@@ -104,7 +104,7 @@ def family(tier):
         rng = random.Random(5)
         fam = rng.sample(fam, 250)
     else:
-        fam = random.Random(5).sample(fam, min(len(fam), 700))
+        fam = random.Random(5).sample(fam, min(len(fam), 500))
     out += [[r] for r in fam]
     seen, uniq = set(), []
     for l in out:
